@@ -948,4 +948,32 @@ example : outsOf tcp [] [] [.clientData (frame q1), .serverData (frame r1), .ser
     ["request", "open", "server:1", "response", "client:1:0", "request", "server:2", "response", "client:1:0"] := by
   decide +kernel
 
+/-! ### the question SECTION is compared, not a single question -/
+
+/-- **C27 (the whole question section decides).** A message from the upstream whose id has a flow but whose question
+    section differs from that flow's query in any way — another number of questions (none, two, three …), another
+    order, one question with another name, type or class — has no effect at all: no hook, nothing sent, state
+    unchanged. (Seed c27-5 compared `DNSMessage.question`, which is `None` for every message that does not carry
+    exactly one question.) -/
+theorem reply_with_other_question_section_ignored (c : Cfg) (σ : Core) (m : Msg) (f : Flow) (q : Msg)
+    (hl : σ.flows.lookup m.id = some f) (hr : f.request = some q) (hne : m.questions ≠ q.questions) :
+    serverMsg c σ m = (σ, []) := by
+  unfold serverMsg
+  simp [hl, hr, hne]
+
+/-- id 5, no question -/
+def q0 : Bytes := [0,5, 1,0, 0,0, 0,0, 0,0, 0,0]
+def r0 : Bytes := [0,5, 0x81,0x80, 0,0, 0,0, 0,0, 0,0]
+/-- id 5, two questions `a. A IN`, `b. AAAA IN` — and the reply with the same / the exchanged questions -/
+def q2q : Bytes := [0,5, 1,0, 0,2, 0,0, 0,0, 0,0, 1,0x61,0, 0,1, 0,1, 1,0x62,0, 0,28, 0,1]
+def r2q : Bytes := [0,5, 0x81,0x80, 0,2, 0,0, 0,0, 0,0, 1,0x61,0, 0,1, 0,1, 1,0x62,0, 0,28, 0,1]
+def r2p : Bytes := [0,5, 0x81,0x80, 0,2, 0,0, 0,0, 0,0, 1,0x62,0, 0,28, 0,1, 1,0x61,0, 0,1, 0,1]
+
+-- pending query with two questions: exchanged questions and an empty section are dropped, the equal section is forwarded
+example : outsOf udp [] [] [.clientData q2q, .serverData r2p, .serverData r0, .serverData r2q] =
+    ["request", "open", "server:5", "response", "client:5:0"] := by decide +kernel
+-- pending query without question: a reply with two questions is dropped, the one without question is forwarded
+example : outsOf udp [] [] [.clientData q0, .serverData r2q, .serverData r0] =
+    ["request", "open", "server:5", "response", "client:5:0"] := by decide +kernel
+
 end MitmVerif.Props.C27
